@@ -8,7 +8,7 @@ From Coq Require Import ZArith Bool List Lia.
 From GoSecs Require Import Base.GoInt Base.BytesBE Base.GoSlice Gen.Gen2.
 From GoSecs Require Import Secs1.Block Gen.Bridge2Secs1.
 From GoSecs Require Secs2.Encode Gen.Bridge2Secs2.
-From GoSecs Require Hsms.Header Hsms.Frame Gen.Bridge2Frames.
+From GoSecs Require Hsms.Header Hsms.Frame Hsms.Responder Gen.Bridge2Frames.
 Import ListNotations.
 Open Scope Z_scope.
 
@@ -225,5 +225,13 @@ Theorem tie_hsms_isSecondaryReply : forall d dec,
   GOk (negb (wait_bit (d_hdr d)) && (function_of (d_hdr d) mod 2 =? 0)).
 Proof. exact bridge_isSecondaryReply. Qed.
 Print Assumptions tie_hsms_isSecondaryReply.
+
+(** [sysBytesGen.next] (C06/C08): the counter advances by one modulo 2^32 ([Responder.next_sys]) and
+    the System Bytes handed out are the new counter, big-endian. Sequential reading of the atomic. *)
+Theorem tie_hsms_sysBytesGen_next : forall n, 0 <= n < 4294967296 ->
+  Gen2.hsms.sysBytesGen_next (Some (Gen2.hsms.mk_sysBytesGen n)) =
+  GOk (Some (Gen2.hsms.mk_sysBytesGen (Responder.next_sys n)), be32 (Responder.next_sys n)).
+Proof. exact bridge_sysBytesGen_next. Qed.
+Print Assumptions tie_hsms_sysBytesGen_next.
 
 End TieHsms.
